@@ -17,3 +17,7 @@ pub mod atomic {
 pub proof fn axiom_vec_len<T>(v: &Vec<T>)
     ensures v@.len() <= 0x7fff_ffff_ffff_ffff
 { }
+
+// TRUSTED: String's Hash and Eq implementations are deterministic and agree (vstd's hash-table key model)
+#[verifier::external_body]
+pub proof fn axiom_string_key_model() ensures vstd::std_specs::hash::obeys_key_model::<String>() {}
